@@ -28,7 +28,7 @@ ASSUMPTIONS = ["six 1.17 shim", "actor assumption: one event at a time per accou
 BUDGET = {"quick": (1000, 150), "thorough": (30000, 2400)}
 FAULTS = ["srv_dup_message", "srv_corrupt_enc", "clean_restart"]
 PROBES = ["first_contact_key_fetch", "group_first_message", "group_media_first_message", "retry_receipt_path", "duplicate_path",
-          "parked_message_path", "burst_before_answer", "delivery_after_restart", "pkmsg", "msg", "skmsg", "prekey_refill"]
+          "burst_before_answer", "delivery_after_restart", "pkmsg", "msg", "skmsg", "prekey_refill"]
 SHRINK = ["ops"]
 KINDS = ["text", "text", "text", "ext", "image", "location", "contact", "url"]
 PHONES = {"A": "4915110000001", "B": "4915110000002", "C": "4915110000003", "D": "4915110000004"}
@@ -92,6 +92,9 @@ def case(idx, tier, base):
                     faults[str(o["tok"])] = {"dup": True}
                 elif x < 0.24:
                     faults[str(o["tok"])] = {"corrupt": [r.random(), r.random(), r.random() < 0.5]}
+                elif x < 0.28:
+                    # both faults on one message: the corrupted stanza is delivered twice
+                    faults[str(o["tok"])] = {"dup": True, "corrupt": [r.random(), r.random(), r.random() < 0.5]}
     return {"seed": seed, "names": names, "groups": groups, "ops": ops, "faults": faults,
             "sched": r.choice(["uniform", "uniform", "ops_first", "ops_last"]), "prekeys": r.choice([30, 40, 60]),
             "threshold": r.choice([1, 5, 10]), "codec_p": r.choice([0.0, 0.0, 0.2])}
@@ -218,6 +221,7 @@ class W(convo.World):
         self.ready = {}
         self.restarted = set()
         self.status = None
+        self.retries_sent = {}
         gl = []
         for gi, members in enumerate(case["groups"]):
             gj = "%s-15000000%02d@g.us" % (PHONES[members[0]], gi)
@@ -227,6 +231,7 @@ class W(convo.World):
         self.gjids = gl
         for nme in self.names:
             self.add_client(nme, PHONES[nme])
+        self.server.low_mark = max(2, case.get("prekeys", 30) - 6)   # ask for a refill early so that it happens in-run
 
     # ---------------------------------------------------------------- script
     def director(self):
@@ -329,6 +334,7 @@ class W(convo.World):
                     self.probe(c["type"] or "enc")
                     continue
                 if c.tag == "participants":
+                    self.probe("group_first_message")
                     for tn in c.children:
                         if tn.tag != "to" or any(x.tag != "enc" for x in tn.children):
                             self.violate("plaintext-on-wire/participants-child", "unexpected child in participants: %s" % tn.short())
@@ -337,6 +343,8 @@ class W(convo.World):
                              % (client.name, c.tag, node.short(1)))
         if node.tag == "receipt" and node["type"] == "retry":
             self.probe("retry_receipt_path")
+            key = (client.jid, node["id"], node["to"])
+            self.retries_sent[key] = self.retries_sent.get(key, 0) + 1
         if node.tag == "iq" and node["xmlns"] == "encrypt" and node["type"] == "get":
             self.probe("first_contact_key_fetch")
         if node.tag == "iq" and node["xmlns"] == "encrypt" and node["type"] == "set" and client.conn_count > 2:
@@ -370,8 +378,17 @@ class W(convo.World):
                          desc + ": fields differ from what the sender composed: %s" % [(k, repr(got.get(k))[:40],
                                                                                         repr(rec["fields"][k])[:40]) for k in bad[:3]])
         elif n > 1:
-            self.violate("delivery/duplicate/%s%s" % (kind, "/group" if rec["group"] else ""),
-                         desc + ": shown %d times to the application" % n)
+            k3 = (client.jid, rec["id"], rec["sender"])
+            nretry = self.retries_sent.get((client.jid, rec["id"], rec["sender"] if not rec["group"] else rec["to"]), 0)
+            if self.server.duplicated.get(k3) and nretry >= 2:
+                # one specific history: both copies of a duplicated group message were undecryptable, the recipient asked
+                # twice for a retry and the sender served both requests
+                self.violate("delivery/duplicate/retry-requested-for-both-copies-of-a-duplicated-message",
+                             desc + ": shown %d times (the server delivered it twice, the recipient could decrypt neither copy "
+                             "and sent %d retry receipts, the sender re-sent it for each)" % (n, nretry))
+            else:
+                self.violate("delivery/duplicate/%s%s" % (kind, "/group" if rec["group"] else ""),
+                             desc + ": shown %d times to the application" % n)
         if is_group != rec["group"] or (is_group and frm != rec["to"]):
             self.violate("delivery/group-identity", desc + ": sent to %s" % rec["to"])
         if first_group_media:
@@ -406,7 +423,12 @@ class W(convo.World):
                                  "of %s" % (rec["tok"], rec["kind"], rec["id"], rec["sender"], rj))
                 want_r = 1 + dup
                 got_r = rec["receipts"].get(rj, 0)
-                if n >= 1 and got_r != want_r:
+                if corrupted and dup and 1 <= got_r <= want_r + self.retries_sent.get(
+                        (rj, rec["id"], rec["to"] if rec["group"] else rec["sender"]), 0):
+                    # both copies were damaged: each is re-acknowledged by a retry request first; how many plain
+                    # delivery receipts follow depends on how many re-sent copies arrive (see the duplicate clause)
+                    pass
+                elif n >= 1 and got_r != want_r:
                     self.violate("receipt/%s/%s" % ("missing" if got_r < want_r else "extra", suffix),
                                  "sender of message tok %d saw %d delivery receipts from %s, expected %d"
                                  % (rec["tok"], got_r, rj, want_r))
